@@ -187,6 +187,23 @@ def run(ck):
                       if used else "the result of Segment<Text>::pull is dropped: the destination advances by the whole chunk although only the complete characters were parsed; "
                       "the bytes of a character split at the chunk end are written twice", g.loc(bi))
     ck.floor("DEFUSE", "text segment chunk pulls", npull, 1)
+    # a fixed-size destination ([u8; N]: account addresses, hashes) must be filled completely by what was actually read; the
+    # declared length of the item says nothing for indefinite-length (chunked) byte strings
+    nfx = 0
+    for pth in sorted(p2 for p2 in cg.bodies if re.search(r"cbor::decoder::Decoder<.*CborDecoder>::decode_bytes_exact$|cbor::decoder::Decoder::<.*>::decode_bytes_exact$", p2)):
+        nfx += 1
+        g = Fn(cg.bodies[pth][0])
+        rd = g.calls(r"Decoder::<.*>::decode_bytes_impl$")
+        good = []
+        for cx in rules.comparisons(g):
+            rel, d = rules.cmp_rejects(g, cx)
+            oa, ob = g.origins(cx["a"], deep=True), g.origins(cx["b"], deep=True)
+            if rel == "Lt" and has_call_origin(oa, r"Cursor::<T>::position$|Cursor<.*>::position$") and has_call_origin(ob, r"::len$") and rd and all(g.dominates(rb, cx["bb"]) for (rb, _) in rd):
+                good.append(cx)
+        ck.ob("CMP", pth, "fixed-size-destination-filled", len(rd) == 1 and len(good) == 1,
+              "after the read, fewer bytes written than the destination holds is an error (tested on the cursor position, so it also holds for chunked byte strings)" if len(good) == 1 else
+              "no test after the read that the bytes actually written fill the fixed-size destination: a chunked byte string shorter than the destination is accepted, the rest stays zero", g.loc())
+    ck.floor("CMP", "fixed-size byte string decoders", nfx, 1)
     ta = find_impl(ck, "rs", CB, r"token_amount::TokenAmount$", r"cbor::CborDeserialize$", "deserialize")
     if ta:
         neg = ta.calls(r"num::<impl i\d+>::checked_neg$")
